@@ -12,6 +12,14 @@ ENGINES = [
                        'arrays; refinement oracle on every live object after every step, representation '
                        'invariant, must-reject events (read-only, shape mismatch), differential judgement of '
                        'exceptions on freshly built objects'},
+    {'name': 'eqsim', 'path': '/verif/engines/eqsim.py', 'serves_properties': ['C03', 'C04'],
+     'kind_free_text': 'seeded histories of phase-equilibrium calls (vle over eleven specification pairs, lle, sle, '
+                       'vlle) re-run on 3-6 PERSISTENT MultiStream objects whose per-stream solver objects warm-start '
+                       'from earlier calls, interleaved with composition / phase-set / T-P edits, scaling, pickled '
+                       'restarts and reset_cache by other stub unit operations, with model (k-th H/S/Cn evaluation) '
+                       'and solver (chosen flexsolve call) faults armed inside single calls; conservation oracle '
+                       '(C03) and defining-equation oracles through independent paths incl. an in-harness '
+                       'Rachford-Rice / gamma-phi flash and a flows-x-k twin universe (C04)'},
 ]
 
 NOT_APPLICABLE = {
@@ -27,7 +35,7 @@ NOT_APPLICABLE = {
 }
 
 PENDING = {p: 'not claimed yet: simulator engine for this property is still under construction (see DESIGN.md)'
-           for p in ['C01', 'C02', 'C03', 'C04', 'C05', 'C08', 'C10', 'C11', 'C12', 'C13', 'C14',
+           for p in ['C01', 'C02', 'C05', 'C08', 'C10', 'C11', 'C12', 'C13', 'C14',
                      'C15', 'C20']}
 
 _COMMON_NOTE = ('trusted base: the in-harness oracle and reference computations, CPython, NumPy; seeded search '
@@ -170,3 +178,46 @@ TEXT['C20'] = {
 PENDING.pop('C20', None)
 ENGINES.append({'name': 'sepsim', 'path': '/verif/engines/sepsim.py', 'serves_properties': ['C20'],
                 'kind_free_text': 'seeded histories of separation helper calls on persistent outlet streams'})
+
+# eqsim (C03, C04)
+TEXT.update({
+    'C03': {
+        'level': 'seeded exploration of histories (15-40 public-API calls) in which flash, recycle, campaign, decanter, '
+                 'crystalliser, VLLE and editor tasks share 3-6 persistent MultiStream objects, so that every '
+                 'equilibrium call after the first runs on solver objects (VLE/LLE/SLE created once per stream) '
+                 'that were warm-started, left stale by edits that do / do not change the set of non-zero '
+                 'chemicals, dropped by restarts, or left half-updated by a model / solver fault injected inside '
+                 'the previous call; after every call that returns, per-chemical totals over phases, sign of every '
+                 'stored phase flow and the side of phase-locked chemicals are checked on dense images. Right '
+                 'level because the anchored code moves material between rows in place, keeps index tables '
+                 'across calls and has recovery branches that only failures reach: conservation has to survive '
+                 'orders of calls and failed iterations, which single fresh-stream examples cannot show.',
+        'design_ref': '5/C03', 'note': _COMMON_NOTE + '; calls that raise are counted, never judged (the property '
+                 'speaks about calls that return); inputs left outside the stated flow range by a failed call are '
+                 'repaired by the generator before the next judged call',
+        'technique': 'deterministic simulation: seeded task interleavings on persistent solver state + fault injection '
+                     'inside solver calls + per-step conservation oracle + ddmin replay',
+    },
+    'C04': {
+        'level': 'same simulated histories as C03 (persistent warm / stale / fault-recovered VLE solver objects); '
+                 'after every vle call that returns: specified T / P stored exactly, specified H / S reproduced '
+                 'through mixture.xH / xS on dense rows, specified V met within the propagated solver resolution '
+                 'against an in-harness gamma-phi flash, bubble / dew boundaries and iso-fugacity '
+                 '(LiquidFugacities / GasFugacities) for homologous families, Raoult / Rachford-Rice split for '
+                 'the ideal package, and proportionality against a twin universe with all flows x k that lives '
+                 'through the same history. The relations themselves are input-output equations; what the '
+                 'simulation decides is whether they keep holding when the answer comes from an aged solver '
+                 '(initial guesses, index tables, cached bubble / dew objects from earlier calls) or from a '
+                 'recovery branch - tolerance clauses are therefore judged differentially against a brand-new '
+                 'stream given the same observable input.',
+        'design_ref': '5/C04', 'note': _COMMON_NOTE + '; bounds are frozen multiples of the solver constants '
+                 '(calibration numbers in engines/eqsim.py); misses that a fresh stream shows as well are reported '
+                 'once as a known finding with a witness, not per occurrence; TH/TS energy clauses need an '
+                 'independent flash and are evaluated for the family and ideal packages only',
+        'technique': 'deterministic simulation: seeded task interleavings on persistent solver state + fault injection '
+                     'inside solver calls + defining-equation oracles via independent paths + scaled twin universe '
+                     '+ fresh-stream differential + ddmin replay',
+    },
+})
+for _p in ('C03', 'C04'):
+    PENDING.pop(_p, None)
